@@ -18,6 +18,18 @@ Other spellings of an attribute value that the constructors accept (array-likes)
   {"__series__": [..]}  polars.Series([..])
   {"__frame__": [[..]]} polars.DataFrame(rows, orient="row")
 `plain(v)` gives the plain scalar / list / nested list that binds to the cells in the same way.
+
+Container spellings of the COMPONENT ARGUMENTS (optional key "spelling"; the spec itself stays in the plain shape above,
+so every reader of spec["headers"], spec["title"]["text"] … is unaffected).  `build` spells the Python containers it
+hands to the constructors accordingly (`SPELLINGS` lists what the constructors accept, `gen_spelling` draws from it):
+  "headers":        "list" (what `build` does without the key) | "tuple" | "single" (exactly one row: the
+                    RTFColumnHeader object itself); for nested (per-section) headers the OUTER container, "list" | "tuple"
+  "headers.inner":  nested headers only: every section's container, "list" | "tuple"
+                    (a tuple is refused at construction with AttributeError: recorded domain decision)
+  "sections":       "list": a kind="table" document handed over as a one-section list, df=[frame], rtf_body=[RTFBody]
+  "<comp>.text":    comp ∈ title subline page_header page_footer footnote source: "str" (one line only) | "list" | "tuple"
+  "headers.text":   the cell texts of every header row: "list" | "tuple" | "frame" (a one-row polars frame) |
+                    "str" (applies to one-cell rows)
 """
 from __future__ import annotations
 
@@ -205,12 +217,123 @@ def spell_path(p: Path, how=None):
     raise ValueError(f"unknown path spelling {how!r}")
 
 
+# ----------------------------------------------------------------------------- container spellings
+
+TEXT_COMPONENTS = ("title", "subline", "page_header", "page_footer", "footnote", "source")
+SPELLINGS = {
+    "headers": ("list", "tuple", "single"),
+    "headers.inner": ("list", "tuple"),
+    "sections": ("list",),
+    "headers.text": ("list", "tuple", "frame", "str"),
+    **{f"{c}.text": ("str", "list", "tuple") for c in TEXT_COMPONENTS},
+}
+
+
+def _lines(v):
+    """the lines of a `text=` value written as a string or a list of strings (None: any other value — a marker
+    dict, null, numbers — which no spelling touches)"""
+    if isinstance(v, str):
+        return [v]
+    if isinstance(v, list) and all(isinstance(x, str) for x in v):
+        return list(v)
+    return None
+
+
+def spell_text(v, how):
+    """the `text=` value `v` (string | list of strings) in the container spelling `how`: the same lines as a string
+    (one line only), a list, a tuple or a one-row polars frame"""
+    lines = _lines(v)
+    if lines is None or how is None:
+        return v
+    if how == "str":
+        return lines[0] if len(lines) == 1 else v
+    if how == "list":
+        return lines
+    if how == "tuple":
+        return tuple(lines)
+    if how == "frame":
+        if not lines:
+            return v
+        import polars as pl
+        return pl.DataFrame([lines], orient="row")
+    raise ValueError(f"unknown text spelling {how!r}")
+
+
+def _spelled_kw(d, how):
+    kw = _kw(d)
+    if how is not None and "text" in (d or {}):
+        kw["text"] = spell_text(d["text"], how)
+    return kw
+
+
+def _container(items, how):
+    if how in (None, "list"):
+        return list(items)
+    if how == "tuple":
+        return tuple(items)
+    raise ValueError(f"unknown container spelling {how!r}")
+
+
+def own_widths_class(h):
+    """do the explicit header rows carry their own col_rel_width: 'none' | 'all' | 'mixed' ('-' without rows)"""
+    if h == "default" or not h:
+        return "-"
+    rows = [x for sec in h for x in sec] if isinstance(h[0], list) else list(h)
+    own = [isinstance(x, dict) and x.get("col_rel_width") is not None for x in rows if x is not None]
+    if not own:
+        return "-"
+    return "all" if all(own) else "none" if not any(own) else "mixed"
+
+
+def gen_spelling(rng, spec, *, p=0.6, force=None):
+    """Draw a container spelling for every component argument of `spec` the constructors accept one for (each with
+    probability `p`, otherwise the spelling `build` uses by itself); `force` fixes some keys.  Only spellings that
+    mean the same document are drawn (a tuple of sections' tuples is left to the callers that want the refusal).
+    Returns the dict to store as spec["spelling"]."""
+    sp = {}
+    kind = spec.get("kind", "table")
+    h = spec.get("headers", "default")
+    if kind != "figure" and h != "default":
+        nested = bool(h) and isinstance(h[0], list)
+        if rng.random() < p:
+            pool = ["tuple"] if nested else ["tuple", "tuple", "single"] if len(h) == 1 else ["tuple"]
+            sp["headers"] = rng.choice(pool)
+        rows = [x for sec in h for x in sec] if nested else list(h)
+        if any(isinstance(x, dict) and _lines(x.get("text")) for x in rows) and rng.random() < p:
+            one = all(len(_lines(x["text"]) or []) == 1 for x in rows if isinstance(x, dict) and _lines(x.get("text")))
+            sp["headers.text"] = rng.choice(["tuple", "tuple", "frame"] + (["str"] if one else []))
+    if kind == "table" and rng.random() < p / 2:
+        sp["sections"] = "list"
+    for c in TEXT_COMPONENTS:
+        d = spec.get(c)
+        if isinstance(d, dict) and _lines(d.get("text")) is not None and rng.random() < p:
+            lines = _lines(d["text"])
+            cur = "str" if isinstance(d["text"], str) else "list"
+            pool = [x for x in (["str"] if len(lines) == 1 else []) + ["list", "tuple", "tuple"] if x != cur]
+            sp[f"{c}.text"] = rng.choice(pool)
+    sp.update(force or {})
+    return sp
+
+
+def spelling_labels(spec):
+    """input-distribution labels of a spec's container spellings (for res.count)"""
+    sp = spec.get("spelling") or {}
+    out = [f"spell:{k}={v}" for k, v in sorted(sp.items())]
+    if sp.get("headers") in ("tuple", "single") or sp.get("sections"):
+        out.append(f"spell:headers={sp.get('headers', 'list')}/own-widths={own_widths_class(spec.get('headers', 'default'))}")
+    return out
+
+
 def build(spec, workdir: str | None = None):
     """Construct the RTFDocument described by spec (raises what the constructors raise)."""
     import rtflite as rtf
 
     kw = {}
     kind = spec.get("kind", "table")
+    sp = spec.get("spelling") or {}
+    for k, v in sp.items():
+        if k not in SPELLINGS or v not in SPELLINGS[k]:
+            raise ValueError(f"unknown container spelling {k}={v!r}")
     if kind == "figure":
         fig = dict(spec["figure"])
         files = fig.pop("files")
@@ -237,6 +360,10 @@ def build(spec, workdir: str | None = None):
         kw["df"] = make_frame(spec["df"])
         if spec.get("body") is not None:
             kw["rtf_body"] = rtf.RTFBody(**_kw(spec["body"]))
+        if sp.get("sections") == "list":
+            # the same table handed over as a one-section list (rtf_body must then be a list too)
+            kw["df"] = [kw["df"]]
+            kw["rtf_body"] = [kw["rtf_body"] if "rtf_body" in kw else rtf.RTFBody()]
     if spec.get("page") is not None:
         kw["rtf_page"] = rtf.RTFPage(**_kw(spec["page"]))
     for key, cls, arg in (("title", rtf.RTFTitle, "rtf_title"), ("subline", rtf.RTFSubline, "rtf_subline"),
@@ -244,15 +371,20 @@ def build(spec, workdir: str | None = None):
                           ("page_footer", rtf.RTFPageFooter, "rtf_page_footer"),
                           ("footnote", rtf.RTFFootnote, "rtf_footnote"), ("source", rtf.RTFSource, "rtf_source")):
         if spec.get(key) is not None:
-            kw[arg] = cls(**_kw(spec[key]))
+            kw[arg] = cls(**_spelled_kw(spec[key], sp.get(f"{key}.text")))
     h = spec.get("headers", "default")
     if h != "default" and kind != "figure":
         def mk(x):
-            return None if x is None else rtf.RTFColumnHeader(**_kw(x))
+            return None if x is None else rtf.RTFColumnHeader(**_spelled_kw(x, sp.get("headers.text")))
         if h and isinstance(h[0], list):
-            kw["rtf_column_header"] = [[mk(x) for x in sec] for sec in h]
+            kw["rtf_column_header"] = _container([_container([mk(x) for x in sec], sp.get("headers.inner"))
+                                                  for sec in h], sp.get("headers"))
+        elif sp.get("headers") == "single":
+            if len(h) != 1:
+                raise ValueError("spelling headers=single needs exactly one header row")
+            kw["rtf_column_header"] = mk(h[0])
         else:
-            kw["rtf_column_header"] = [mk(x) for x in h]
+            kw["rtf_column_header"] = _container([mk(x) for x in h], sp.get("headers"))
     return rtf.RTFDocument(**kw)
 
 
